@@ -11,7 +11,8 @@ PENDING = {}
 for p in props:
     pid = p["id"]
     path = f"/verif/checks/{pid.lower()}.py"
-    if not os.path.exists(path):
+    ready = set(open("/verif/checks/READY").read().split())
+    if not os.path.exists(path) or pid not in ready:
         na.append({"property_id": pid, "reason": PENDING.get(pid, "check not built yet in this revision of /verif (planned, see DESIGN.md section 5); not claimed")})
         continue
     mod = importlib.import_module(f"checks.{pid.lower()}")
